@@ -411,6 +411,24 @@ package graph
 //@     invariant 1 <= i && len(degrees) == n && n > 0
 //@     decreases n - 1 - i
 
+// Cycle: i ~ i+1 and 0 ~ n-1
+//@ func Cycle
+//@   requires n <= 16777216
+//@   panics when n < 3
+//@   ensures fresh(result) && sizesDense(result) && result.NumberOfVertices == n
+//@   ensures forall b in 0..n: forall a in 0..b: result.Edges[tri(b)+a] > 0 <==> (b == a + 1 || (a == 0 && b == n - 1))
+//@   opt lemmas=triMono,triMonoS
+//@   use triStep(n-3)
+//@   loop 1
+//@     invariant 0 <= i && (i <= n-1 || (n == 0 && i == 0)) && len(edges) == tri(n) && 3 <= n
+//@     invariant forall b in 0..n: forall a in 0..b: edges[tri(b)+a] > 0 <==> (b == a + 1 && a < i)
+//@     use triStep(i-1)
+//@     decreases n - 1 - i
+//@   loop 2
+//@     invariant -1 <= rangeindex && rangeindex < len(degrees) && len(degrees) == n && 3 <= n && len(edges) == tri(n) && fresh(edges) && fresh(degrees)
+//@     invariant forall b in 0..n: forall a in 0..b: edges[tri(b)+a] > 0 <==> (b == a + 1 || (a == 0 && b == n - 1))
+//@     decreases len(degrees) - rangeindex
+
 // Star: 0 ~ i for i >= 1
 //@ func Star
 //@   requires 0 <= n && n <= 16777216
